@@ -71,7 +71,8 @@ class Hooks(Harness):
 
     @property
     def bounds(self):
-        return "loader %s, a real of shape %r with symbolic digits at %s" % (self.dialect, self.shape, self.where)
+        return "loader %s, a real of shape %r with symbolic digits at %s; grammar/decoder wired: %s" % (
+            self.dialect, self.shape, self.where, getattr(self, "via", "shared"))
 
     def inputs(self, ctx):
         cs = []
@@ -109,11 +110,28 @@ class Hooks(Harness):
                      "PDS3": (g.PDSGrammar, d.PDSLabelDecoder, p.ODLParser),
                      "Omni": (g.OmniGrammar, d.OmniDecoder, p.OmniParser)}[self.dialect]
         gr = G()
-        if not subst:
-            return Pc(grammar=gr, decoder=Dc(grammar=gr)), None
-        M, Gc, Oc = make_classes(L)
-        dec = Dc(grammar=gr, quantity_cls=Q, real_cls=R)
-        return Pc(grammar=gr, decoder=dec, module_class=M, group_class=Gc, object_class=Oc), (M, Gc, Oc)
+        via = getattr(self, "via", "shared")
+        # how the caller wires grammar and decoder together: one grammar object shared by both (what the library's own
+        # defaults do), two equal but separate grammar objects, the decoder alone, or the keywords of pvl.loads
+        dgr = gr if via == "shared" else G()
+        kw, classes = {}, None
+        if subst:
+            M, Gc, Oc = make_classes(L)
+            dec = Dc(grammar=dgr, quantity_cls=Q, real_cls=R)
+            kw, classes = dict(module_class=M, group_class=Gc, object_class=Oc), (M, Gc, Oc)
+        else:
+            dec = Dc(grammar=dgr)
+        if via == "decoder_only":
+            return Pc(decoder=dec, **kw), classes
+        if via == "loads":
+            class _ViaLoads:
+                @staticmethod
+                def parse(text):
+                    if Pc is p.OmniParser:
+                        return L.pvl.loads(text, grammar=gr, decoder=dec, **kw)
+                    return L.pvl.loads(text, parser=Pc(grammar=gr, decoder=dec, **kw))
+            return _ViaLoads, classes
+        return Pc(grammar=gr, decoder=dec, **kw), classes
 
     def prop_fn(self, L, inp):
         x = inp["x"]
@@ -211,6 +229,9 @@ def obligations(tier):
             for sh in shapes:
                 obs.append(Hooks(dialect=d, where=w, shape=sh))
             obs.append(Hooks(dialect=d, where=w, shape=shapes[0], order="substitutes-first"))
+            if w in ("top", "seqquantity", "blocks") or tier != "quick":
+                for via in ("separate", "decoder_only", "loads"):
+                    obs.append(Hooks(dialect=d, where=w, shape=shapes[1], via=via))
     return obs
 
 
